@@ -138,6 +138,11 @@ def run_case(case: dict) -> Result:
         if len(toks) != b - a + 1 or any(x is not y for x, y in zip(toks, order.tokens[a:b + 1])):
             res.bad(f'tokens:{type(m).__name__}', f'{type(m).__name__}.tokens is not the store segment {a}..{b} (input {text!r})')
             break
+    # (c') the slices nest: every sub-model lies inside its parent, siblings do not overlap, every significant token has one owner
+    if not res.violations:
+        inv = O.invariants(model, whole_store=(target == 'file'), trivia_extra=() if target == 'file' else ('Indent', 'InlineComment'))
+        if inv:
+            res.bad(f'nesting:{inv[0][0]}', f'parse({text!r}, {cls.__name__}, auto_claim_comments={claim}) gives a tree whose spans do not nest: {inv[:3]}')
     # (d) independent tokenisation (only when the case carries the generator's piece list)
     if case.get('raw'):
         res.classes = sorted(classes)
